@@ -63,13 +63,24 @@ def run_prop(run, scr, tier, seed, prop, e1=None, diff=(), diff_load=(2, 8), ext
                     r.detail = f'{prop} assertions failed: ' + '; '.join(d for _, d, _ in own)[:300]
                     mism.append({'name': r.h.name, 'detail': r.detail})
         run.add_kani_results(results)
-    # confirmation of mismatches against the reference implementation
+    # confirmation of mismatches: first at kernel level (scalar counterexamples of closure lemmas), then against the reference implementation
     if mism:
         confirmed = []
+        cases = [c for c in getattr(suite, 'scalar_cases', [])]
+        if cases:
+            from e2run import run_scalar_cases
+            for rel in (False, True):
+                nat, oc, out = run_scalar_cases(scr, [(n, a) for n, a, _ in cases], release=rel)
+                badc = [(k, v) for k, v in nat.items() if not v[1]]
+                if badc:
+                    confirmed.append(('kernel', [f'{k[0]}{list(k[1])} = {v[0]} violates its FIPS 204 definition ({"release" if rel else "dev"})' for k, v in badc[:3]]))
+                    break
         for what in diff:
             ns, nm = diff_load
             if what == 'sign':
                 nm = max(nm, 300)
+            if what == 'keygen_search':
+                ns, nm = 20000, 0
             oc, msgs = diffnative.run(scr, what, seed=seed + 1, n_seeds=ns, n_msgs=nm)
             run.add_query({'name': f'native differential `{what}` against the spec-literal reference ({ns} seeds x {nm} messages x 3 sets)', 'engine': 'native replay', 'verdict': 'holds' if oc == 'pass' else ('sat' if oc == 'fail' else 'unknown'), 'detail': msgs[:3]}, core=False)
             if oc == 'fail':
